@@ -825,6 +825,107 @@ def corrupt_value_cases(ctx, quick):
     return cases, meta
 
 
+# ---------------------------------------------------------------------- optional header / batch item fields
+def optional_field_menu(version, rng):
+    """(supported-on-this-tree fields, legal-but-known-unsupported fields) a server may add under `version`, each as
+    (name, kind, encoder).  Specification: Response Header tables of KMIP 1.2 / 1.4 / 2.0, Batch Item table."""
+    T = enums.Tags
+    sup, unsup = [], []
+    if version >= KV.KMIP_1_4:
+        sup.append(('server-correlation-value', 'header', lambda: {T.SERVER_CORRELATION_VALUE: [D.t_text(T.SERVER_CORRELATION_VALUE, 'srv-' + D.gen_text(rng, 1, 12))]}))
+    if version >= KV.KMIP_2_0:
+        sup.append(('server-hashed-password', 'header', lambda: {T.SERVER_HASHED_PASSWORD: [D.t_bytes(T.SERVER_HASHED_PASSWORD, D.gen_bytes(rng, 32, 32))]}))
+    sup.append(('time-stamp-variant', 'time', lambda: rng.choice([0, 1, 2 ** 31 + 5, 4102444800])))
+    sup.append(('unique-batch-item-id', 'before_status', lambda: D.t_bytes(T.UNIQUE_BATCH_ITEM_ID, D.gen_bytes(rng, 1, 8))))
+    sup.append(('empty-message-extension', 'after_payload', lambda: D.t_struct(T.MESSAGE_EXTENSION)))
+    if version >= KV.KMIP_1_2:
+        unsup.append(('nonce', 'header', lambda: {T.NONCE: [D.t_struct(T.NONCE, D.t_bytes(T.NONCE_ID, D.gen_bytes(rng, 1, 8)),
+                                                                     D.t_bytes(T.NONCE_VALUE, D.gen_bytes(rng, 8, 16)))]}))
+        unsup.append(('attestation-type', 'header', lambda: {T.ATTESTATION_TYPE: [D.t_enum(T.ATTESTATION_TYPE, k) for k in
+                                                                                  rng.sample([1, 2, 3], rng.randint(1, 3))]}))
+    unsup.append(('message-extension', 'after_payload', lambda: D.t_struct(
+        T.MESSAGE_EXTENSION, D.t_text(T.VENDOR_IDENTIFICATION, 'Acme'), D.t_bool(T.CRITICALITY_INDICATOR, False),
+        D.t_struct(T.VENDOR_EXTENSION, D.t_text(T.VENDOR_IDENTIFICATION, D.gen_text(rng, 1, 8))))))
+    return sup, unsup
+
+
+def apply_fields(frame, chosen):
+    hdr, ts, kw = {}, None, {}
+    for name, kind, enc in chosen:
+        v = enc()
+        if kind == 'header':
+            hdr.update(v)
+        elif kind == 'time':
+            ts = v
+        else:
+            kw[kind] = kw.get(kind, b'') + v
+    out = frame
+    if hdr or ts is not None:
+        out = D.with_header_fields(out, hdr, time_stamp=ts)
+    if kw:
+        out = D.with_batch_item_fields(out, **kw)
+    return out
+
+
+def optional_field_cases(ctx, quick):
+    """Every legal answer must be reported exactly like its minimal-header twin, whatever optional Response Header and
+    Batch Item fields the server adds (all present/absent combinations of the fields this tree decodes; the fields the
+    specification allows but this tree cannot decode are known findings)."""
+    import itertools
+    rng = ctx.subrng('optfields')
+    cases, meta = [], []
+    for op in D.OPS:
+        for version in D.VERSIONS:
+            if op.min_version is not None and version < op.min_version:
+                continue
+            answers = [('success', lambda: [Item(RS.SUCCESS, payload=op.payload(rng, version))]),
+                       ('failure', lambda: [Item(RS.OPERATION_FAILED, rng.choice(list(RR)), D.gen_text(rng, 1, 20))]),
+                       ('request-failure', lambda: [Item(RS.OPERATION_FAILED, RR.AUTHENTICATION_NOT_SUCCESSFUL, D.gen_text(rng, 1, 20), op=None)])]
+            for label, mk in answers:
+                for attempt in range(8):
+                    kwargs = op.args(rng, version)
+                    items = mk()
+                    base, resp, sock = scripted_call(op, version, kwargs, items=items)
+                    if sock.sent and resp.request is not None:
+                        break
+                else:
+                    continue
+                frame = resp.response_bytes
+                abstract = abstract_items(version, resp, items, False)
+                sup, unsup = optional_field_menu(version, rng)
+                combos = [c for r in range(1, len(sup) + 1) for c in itertools.combinations(sup, r)]
+                if quick and len(combos) > 12:
+                    combos = [c for c in combos if len(c) in (1, len(sup))] + rng.sample([c for c in combos if 1 < len(c) < len(sup)], 6)
+                todo = [(c, None) for c in combos] + [((u,), u[0]) for u in unsup]
+                for u in unsup[:1]:     # an unsupported field together with all supported ones (at most one Message Extension)
+                    todo.append((tuple(x for x in sup if not (u[0] == 'message-extension' and x[0] == 'empty-message-extension')) + (u,), u[0]))
+                for chosen, unsupported in todo:
+                    names = '+'.join(n for n, _, _ in chosen)
+                    bad = apply_fields(frame, chosen)
+                    sok, swhy = strictly_decodable(bad)
+                    if not sok:
+                        raise D.HarnessError('harness built a malformed variant (%s): %s' % (names, swhy))
+                    out, _, _ = scripted_call(op, version, kwargs, raw=bad)
+                    same = D.outcome_coq(out) == D.outcome_coq(base)
+                    ctx.count('optfields.%s.%s' % (names if unsupported else 'n=%d' % len(chosen), 'same-as-twin' if same else
+                                                   'differs:' + (out[1] if out[0] == 'other' else out[0])))
+                    ctx.case_seen(('optfields', op.name, version.name, label, names, bad), nontrivial=True)
+                    if not same:
+                        w = {'client': 'ProxyKmipClient', 'method': op.name, 'kmip_version': version.name, 'answer': label,
+                             'added_fields': names, 'response_hex': bad.hex(), 'minimal_twin_hex': frame.hex(),
+                             'observed': D.outcome_plain(out), 'minimal_twin_outcome': D.outcome_plain(base)}
+                        if unsupported:
+                            sig = {'client': 'pie', 'response': 'optional-field', 'field': unsupported, 'exc': out[1] if out[0] == 'other' else out[0]}
+                        else:
+                            sig = {'client': 'pie', 'op': op.name, 'response': 'optional-field', 'field': names, 'what': 'differs-from-minimal-twin'}
+                        ctx.violation(sig, w, '%s (%s): a legal %s answer carrying %s is not reported like the same answer without it' % (
+                            op.name, version.name, label, names))
+                    decoded = D.decode_response(version, bad) is not None
+                    cases.append('(CPie %s %s %s)' % (op.model, D.resp_coq(abstract if decoded else None), D.outcome_coq(out)))
+                    meta.append((op.name, version.name, label, names, D.outcome_plain(out)))
+    return cases, meta
+
+
 # ---------------------------------------------------------------------- request envelope
 KVER = {KV.KMIP_1_0: 'Request.V10', KV.KMIP_1_1: 'Request.V11', KV.KMIP_1_2: 'Request.V12', KV.KMIP_1_3: 'Request.V13',
         KV.KMIP_1_4: 'Request.V14', KV.KMIP_2_0: 'Request.V20'}
@@ -932,6 +1033,12 @@ def run(ctx):
     for i in bad[:20]:
         ctx.log('valuebytes disagreement', vmeta[i][:5])
         ctx.disagreement('valuebytes', {'case': vmeta[i]})
+    ocases, ometa = optional_field_cases(ctx, quick)
+    bad = ctx.run_cases('optfields', HEADER, ocases, 'check_ccase',
+                        what='Client.interpret vs ProxyKmipClient on legal answers carrying optional Response Header / Batch Item fields')
+    for i in bad[:20]:
+        ctx.log('optfields disagreement', ometa[i])
+        ctx.disagreement('optfields', {'case': ometa[i], 'coq': ocases[i][:500]})
     rcases, rmeta = request_cases(ctx, quick)
     bad = ctx.run_cases('requests', HEADER, rcases, 'check_ccase', shard=40,
                         what='Request.enc_request / dec_request vs the bytes ProxyKmipClient emits (envelope; payload body opaque)')
